@@ -6,10 +6,17 @@ import "fmt"
 // timer armed for exactly its current height and view.
 type OracleC10 struct {
 	BaseOracle
-	s *Sim
+	s   *Sim
+	ext map[[2]int]*c10Ext // (node, incarnation) -> timer extensions in the current epoch
 }
 
-func NewOracleC10(s *Sim) *OracleC10 { return &OracleC10{s: s} }
+type c10Ext struct {
+	h uint32
+	v byte
+	n int
+}
+
+func NewOracleC10(s *Sim) *OracleC10 { return &OracleC10{s: s, ext: map[[2]int]*c10Ext{}} }
 func (o *OracleC10) Name() string     { return "C10" }
 
 func (o *OracleC10) viol(n *Node, class, f string, a ...any) {
@@ -36,6 +43,29 @@ func (o *OracleC10) AfterCall(n *Node, st *Step) {
 	for i := range st.Outs {
 		if out := &st.Outs[i]; out.Kind == OTimerReset && out.D < 0 {
 			o.viol(n, "negative_timer_duration", "%s requested Timer.Reset(%d, %d, %v)", st.describe(), out.H, out.V, out.D)
+			return
+		}
+	}
+	// "so it can never wait forever": within one height and view every validator can make the
+	// node extend its timer a bounded number of times (its proposal or response, its pre-commit,
+	// its commit - each is kept once taken in, and a duplicate of a kept payload changes
+	// nothing), so the number of extensions in an epoch is bounded by a small multiple of N.  An
+	// unbounded series means some payload extends the timer every time it is delivered, i.e.
+	// a peer's periodic retransmissions can postpone the timeout indefinitely.
+	{
+		k := [2]int{n.id, n.inc}
+		e := o.ext[k]
+		if e == nil || e.h != d.BlockIndex || e.v != d.ViewNumber {
+			e = &c10Ext{h: d.BlockIndex, v: d.ViewNumber}
+			o.ext[k] = e
+		}
+		for i := range st.Outs {
+			if st.Outs[i].Kind == OTimerExtend {
+				e.n++
+			}
+		}
+		if lim := 4*len(s.sc.ValsAt(d.BlockIndex)) + 8; e.n > lim {
+			o.viol(n, "timer_extended_without_bound", "height %d view %d: the timer has been extended %d times in this epoch (more than 4N+8 = %d): retransmitted payloads keep postponing the timeout", d.BlockIndex, d.ViewNumber, e.n, lim)
 			return
 		}
 	}
